@@ -233,7 +233,23 @@ def run_check(prop, tier, seed, campaign, replay=None):
     proof_ok = prop_ok and cfg_ok and not bad_ax and not forb
 
     ctx = dict(tier=tier, seed=seed, model_ok=drv_ok and cfg_ok, prop=prop, replay=replay)
-    res = campaign(ctx)
+    try:
+        res = campaign(ctx)
+    except Exception as ex:
+        # An exception that escapes from the implementation's own frames while the campaign drives it is behaviour of the code
+        # under test (on the unchanged tree no campaign raises); one raised by the harness itself stays a harness failure (exit 2).
+        import traceback as _tb
+        frames = _tb.extract_tb(ex.__traceback__)
+        inner = frames[-1].filename if frames else ''
+        if not inner.startswith('/repo/'):
+            raise
+        res = Result()
+        res.evaluations = 1
+        res.rule = 'campaign aborted: the implementation raised out of a call the campaign makes on every run'
+        res.violations.append(dict(what='%s: the implementation raised %s: %s at %s:%d in a call that returns normally on the reference tree'
+                                   % (prop, type(ex).__name__, ex, inner, frames[-1].lineno),
+                                   signature='%s impl-raised %s' % (prop, type(ex).__name__),
+                                   traceback=_tb.format_exception(type(ex), ex, ex.__traceback__)))
 
     kf = known_findings()
     open_sigs = [(sg, e) for e in kf.get('open', []) if prop in e.get('properties', []) for sg in e.get('signatures', {}).get(prop, [])]
